@@ -288,6 +288,7 @@ class Exec:
                     st2 = st.clone() if len(targets) > 1 else st
                     fr2 = self._clone_frame(fr, dict(fr.vals)) if len(targets) > 1 else fr
                     st2.decisions.append((B.cond, val, how))
+                    st2.events.append(('branch', B.cond, (val, how, fr.fn.name)))
                     fr2.vals[B.cond.id] = val
                     vis = dict(visits); vis[tgt] = vis.get(tgt, 0) + 1
                     if vis[tgt] > self.dom.loop_unroll + 1:
